@@ -19,6 +19,7 @@ import (
 	fixedlength2 "github.com/jf-tech/omniparser/extensions/omniv21/fileformat/flatfile/fixedlength"
 	ffjson "github.com/jf-tech/omniparser/extensions/omniv21/fileformat/json"
 	ffxml "github.com/jf-tech/omniparser/extensions/omniv21/fileformat/xml"
+	"github.com/jf-tech/omniparser/extensions/omniv21/samples/customfileformats/jsonlog/jsonlogformat"
 	"github.com/jf-tech/omniparser/extensions/omniv21/transform"
 	"github.com/jf-tech/omniparser/header"
 	"github.com/jf-tech/omniparser/idr"
@@ -54,6 +55,7 @@ func DriveStub(w *world.World, rd io.Reader, disableTransformCache bool, o Opts)
 		csv.NewCSVFileFormat("sim-schema"), csv2.NewCSVFileFormat("sim-schema"), edi.NewEDIFileFormat("sim-schema"),
 		fixedlength.NewFixedLengthFileFormat("sim-schema"), fixedlength2.NewFixedLengthFileFormat("sim-schema"),
 		ffjson.NewJSONFileFormat("sim-schema"), ffxml.NewXMLFileFormat("sim-schema"),
+		jsonlogformat.NewJSONLogFileFormat("sim-schema"),
 	}
 	var ff fileformat.FileFormat
 	var rt interface{}
